@@ -12,6 +12,9 @@ def check(rep):
     LR.rule_lex_error_raises(ctx)
     ctx.check_error_anchors()
     GR.rule_accept_needs_end(ctx)
+    ER.rule_tokens_truthy(ctx)
+    ER.rule_no_swallow(ctx)
+    ER.rule_text_unmodified(ctx, rid="C06.TEXT-UNMODIFIED")
     GR.rule_parse_error_raises(ctx)
     GR.rule_no_error_productions(ctx)
     ER.rule_none_is_error(ctx)
